@@ -6,6 +6,7 @@ import asyncio, itertools, json, re
 from pathlib import Path
 
 from vlib.common import Check, VERIF, hexs, run_model, unhex
+from harness.simtransport import SimStall
 import translate
 
 PID = "C09"
@@ -107,9 +108,11 @@ def _mk_object(case, divisor):
     name = {"telnet": "telnet" if sync else "asynctelnet", "ssh": "system" if sync else "asynctelnet"}[case["flavour"]]
     if case.get("via") == "driver":
         from harness.simtransport import make_conn
-        conn, t = make_conn("generic", None, stack=case["stack"], transport=name, auth_bypass=case.get("auth_bypass", False),
-                            auth_username=S(u), auth_password=S(p), auth_private_key_passphrase=S(h), on_open=None,
-                            timeout_ops=case["ivl"] * divisor, channel_lock=bool(case.get("channel_lock", False)),
+        # platform: a core platform driver WITH its default on_open / on_close hooks; otherwise GenericDriver without hooks
+        hook_kw = {} if case.get("platform") else {"on_open": None}
+        conn, t = make_conn(case.get("platform") or "generic", None, stack=case["stack"], transport=name, auth_bypass=case.get("auth_bypass", False),
+                            auth_username=S(u), auth_password=S(p), auth_private_key_passphrase=S(h),
+                            timeout_ops=case["ivl"] * divisor, channel_lock=bool(case.get("channel_lock", False)), **hook_kw,
                             **({"comms_prompt_pattern": _chan_prompt()} if case.get("drvprompt") == "c" else {}))
         return conn, conn.channel, conn._base_transport_args
     if case.get("build") == "driver":
@@ -160,15 +163,50 @@ def _attach(case, sub, obj, divisor):
     return dev, t, clock
 
 
-def _collect(case, dev, t, exc):
+def _mark_login(ch, t, mark, is_async):
+    """driver-level runs: note where the in-channel login loop (called by open()) ended and how, so that what open() does
+    AFTERWARDS (hooks, close) can be told from the login itself"""
+    for name in ("channel_authenticate_telnet", "channel_authenticate_ssh"):
+        orig = getattr(type(ch), name)
+
+        def note(exc):
+            mark.update(trace=len(t.trace), tape=len(t.tape), exc=exc)
+        if is_async:
+            async def wrapped(*a, _o=orig, **k):
+                try:
+                    r = await _o(ch, *a, **k)
+                except BaseException as e:  # noqa
+                    note(e)
+                    raise
+                note(None)
+                return r
+        else:
+            def wrapped(*a, _o=orig, **k):
+                try:
+                    r = _o(ch, *a, **k)
+                except BaseException as e:  # noqa
+                    note(e)
+                    raise
+                note(None)
+                return r
+        setattr(ch, name, wrapped)
+
+
+def _collect(case, dev, t, exc, mark=None):
     writes, n = [], 0
-    for ev in t.trace:
+    trace, tape, extra = list(t.trace), list(t.tape), {}
+    if mark and "trace" in mark:
+        after = trace[mark["trace"]:]
+        extra = dict(login_outcome=_outcome(mark["exc"]), after_writes=[ev[1] for ev in after if ev[0] == "W"],
+                     after_reads=sum(1 for ev in after if ev[0] in ("R", "E", "stall")))
+        trace, tape = trace[:mark["trace"]], tape[:mark["tape"]]
+    for ev in trace:
         if ev[0] in ("R", "E"):
             n += 1
         elif ev[0] == "W":
             writes.append((n, ev[1]))
-    return dict(outcome=_outcome(exc), writes=writes, tape=list(t.tape), wlog=list(dev.wlog), lines=list(dev.lines),
-                spans=list(dev.spans), accepted=dev.accepted, closed=dev.closed, cleaned=cleaned_chunks(t.tape),
+    return dict(extra, outcome=_outcome(exc), writes=writes, tape=tape, wlog=list(dev.wlog), lines=list(dev.lines),
+                spans=list(dev.spans), accepted=dev.accepted, closed=dev.closed, cleaned=cleaned_chunks(tape),
                 g0=dev.g0 or b"", reacts=list(dev.reacts))
 
 
@@ -224,9 +262,12 @@ def run_real_sync(case, divisor):
         u, p, h = creds(sub)
         L.use_clock(clock)
         exc = None
+        mark = {}
         try:
             if case.get("via") == "driver":
                 conn.auth_username, conn.auth_password, conn.auth_private_key_passphrase = S(u), S(p), S(h)
+                if case.get("platform"):
+                    _mark_login(ch, t, mark, False)
                 conn.open()
             else:
                 t.open()
@@ -240,13 +281,14 @@ def run_real_sync(case, divisor):
             exc = e
         finally:
             L.use_clock(None)
-        res = _collect(case, dev, t, exc)
-        try:   # close between logins (open, close, open, ...)
-            if case.get("via") == "driver":
+        res = _collect(case, dev, t, exc, mark)
+        try:   # close between logins (open, close, open, ...); after a FAILED open() of a driver with hooks only the transport
+            # is closed (close() would run on_close against a device that is not logged in)
+            if case.get("via") == "driver" and not (case.get("platform") and exc is not None):
                 conn.close()
             else:
                 t.close()
-        except Exception:
+        except (Exception, SimStall):
             pass
     return res
 
@@ -265,9 +307,12 @@ async def run_real_async(case, divisor):
         u, p, h = creds(sub)
         L.use_clock(clock)
         exc = None
+        mark = {}
         try:
             if case.get("via") == "driver":
                 conn.auth_username, conn.auth_password, conn.auth_private_key_passphrase = S(u), S(p), S(h)
+                if case.get("platform"):
+                    _mark_login(ch, t, mark, True)
                 await conn.open()
             else:
                 await t.open()
@@ -281,13 +326,13 @@ async def run_real_async(case, divisor):
             exc = e
         finally:
             L.use_clock(None)
-        res = _collect(case, dev, t, exc)
+        res = _collect(case, dev, t, exc, mark)
         try:
-            if case.get("via") == "driver":
+            if case.get("via") == "driver" and not (case.get("platform") and exc is not None):
                 await conn.close()
             else:
                 t.close()
-        except Exception:
+        except (Exception, SimStall):
             pass
     return res
 
@@ -304,7 +349,7 @@ def sys_line(case, res):
     """request for the CLOSED-system model (`sysRunI`: loop + causal device `Dev` + schedule with empty reads, real cleaner), or
     None when the run is not of that shape: the device must be describable as g0 / one segment per credential line / ONE constant
     reaction to a bare return that does not change its state (so: no bare return received while it waits for a password)"""
-    if res.get("blocked") or case.get("auth_bypass") or any(e[0] == "E" for e in res["tape"]):
+    if res.get("blocked") or case.get("auth_bypass") or case.get("platform") or any(e[0] == "E" for e in res["tape"]):
         return None
     segs, rets, pend = [], [], None
     for st, data, out in res["reacts"]:
@@ -358,7 +403,13 @@ def real_patterns():
     gp = inspect.signature(GenericDriver.__init__).parameters["comms_prompt_pattern"].default
     from scrapli.driver import Driver
     dch = Driver(host="sim", transport="telnet").channel
-    return dict(dU=dch.auth_telnet_login_pattern, dP=dch.auth_password_pattern, dH=dch.auth_passphrase_pattern,
+    plat = {}
+    import scrapli.driver.core as CORE
+    from harness.simtransport import DRIVERS
+    for name in ("cisco_iosxe", "cisco_nxos", "arista_eos"):
+        pc = getattr(CORE, DRIVERS[name][0])(host="sim", transport="telnet", auth_username="a", auth_password="b")
+        plat["plat:" + name] = pc.channel._get_prompt_pattern(class_pattern=pc.channel._base_channel_args.comms_prompt_pattern)
+    return dict(plat, dU=dch.auth_telnet_login_pattern, dP=dch.auth_password_pattern, dH=dch.auth_passphrase_pattern,
                 U=ch.auth_telnet_login_pattern, P=ch.auth_password_pattern, H=ch.auth_passphrase_pattern,
                 c=ch._get_prompt_pattern(class_pattern=BaseChannelArgs().comms_prompt_pattern),
                 g=ch._get_prompt_pattern(class_pattern=gp), chan=ch)
@@ -374,6 +425,8 @@ def in_domain(case, pats):
     passphrase prompt; (C02's business, not C09's:) no banner line prefix that looks like a shell prompt; usernames and
     passwords that do not themselves look like prompts"""
     pp = pats["g" if (case.get("via") == "driver" and case.get("drvprompt") != "c") else "c"]
+    if case.get("platform"):
+        pp = pats["plat:" + case["platform"]]     # the platform driver's own (combined privilege level) prompt pattern
     for txt in banner_texts(case):
         low = strip_ansi_text(txt.replace(b"\r", b"")).lower()
         for line in low.split(b"\n"):
@@ -488,6 +541,15 @@ def oracle(case, res):
         tmax = max([e[2] for e in res["tape"] if e[0] == "c"], default=0)
         if kicks and not case["ivl"] * kicks < tmax:
             out.append(f"{kicks} bare returns written within {tmax} time units (return interval {case['ivl']}): more than one per interval")
+    # driver level: once the in-channel login has given up, open() ends the same way, at once, and types nothing more
+    lo = res.get("login_outcome")
+    if lo is not None and lo != "done":
+        if res["after_writes"]:
+            out.append(f"the login loop gave up ({lo}) but open() went on to write {[S(w) for w in res['after_writes'][:6]]} to the device")
+        if res["after_reads"]:
+            out.append(f"the login loop gave up ({lo}) but open() went on reading ({res['after_reads']} more reads / waits)")
+        if oc != lo:
+            out.append(f"the login loop ended with {lo} but open() ended with {oc}")
     exp = expected(case)
     if exp == "done":
         if oc != "done":
@@ -1016,6 +1078,51 @@ def decor_cases(tier, rng):
     return out
 
 
+def drvhook_cases(tier, rng):
+    """DRIVER-level login family: real platform drivers with their default on_open / on_close hooks (IOSXE, NXOS, EOS) and
+    GenericDriver as the hook-less control, opened through open() (sync and asyncio; telnet-style and ssh-style in-channel
+    login) against every login course of the channel-level families: valid, valid behind banners, re-prompted once, rejected for
+    ever (username / password re-prompt), wrong username, server closing after the third rejection, passphrase valid / wrong,
+    fatal ssh message, silent device"""
+    out = []
+    combos = [("telnet", "sync"), ("telnet", "async"), ("ssh", "sync")]
+    for platform in ("cisco_iosxe", "cisco_nxos", "arista_eos", None):
+        for fl, st in combos:
+            courses = []
+            def mk(**dev):
+                d = dict(user_prompt="Username: ", pass_prompt="Password: ", shell_prompt="r1#") if fl == "telnet" else \
+                    dict(pass_prompt="admin@r1's password: ", shell_prompt="r1#")
+                d.update(dev)
+                return base_case(fl, st, **d)
+            courses.append(("valid", mk(banner="Welcome\n")))
+            courses.append(("valid-banner", mk(pre=PRE_CLEAN[1] if fl == "telnet" else SSH_WARN[1], banner=POST_CLEAN[2], nl="\r\n")))
+            courses.append(("reprompt-once", mk(banner="Welcome\n", reject_first=1, max_tries=3, after_max="reprompt")))
+            c = mk(max_tries=3, after_max="reprompt"); c["creds"]["password"] = "wr0ng"; courses.append(("rejected", c))
+            c = mk(max_tries=3, after_max="close"); c["creds"]["password"] = "wr0ng"; courses.append(("rejected-close", c))
+            if fl == "telnet":
+                c = mk(max_tries=5, after_max="reprompt", reject_to="pass"); c["creds"]["password"] = "wr0ng"; courses.append(("rejected-pass", c))
+                c = mk(max_tries=3, after_max="reprompt", nl="\r\n", reject_msg="% Login invalid"); c["creds"]["username"] = "nobody"; courses.append(("wrong-user", c))
+                c = mk(needs_kick=9); c["hang"] = True; courses.append(("silent", c))
+            else:
+                courses.append(("phrase", mk(passphrase="keypass", phrase_prompt=PHRASE_PROMPTS[1], banner="Welcome\n")))
+                c = mk(passphrase="keypass", phrase_prompt=PHRASE_PROMPTS[0], phrase_tries=3); c["creds"]["passphrase"] = "badphrase"; c["creds"]["password"] = "wr0ng"
+                courses.append(("phrase-wrong", c))
+                courses.append(("fatal", mk(fatal=FATALS[9], pre=SSH_WARN[1])))
+                courses.append(("fatal-hostkey", mk(fatal=FATALS[0])))
+                c = mk(pass_prompt="", pre=SSH_WARN[1]); c["hang"] = True; courses.append(("silent", c))
+            for name, c in courses:
+                cutspecs = [["all"], ["one"], ["list", [5, 3, 9, 2, 40, 7, 40]]]
+                for cs in cutspecs:
+                    cc = json.loads(json.dumps(c))
+                    cc.update(via="driver", cuts=cs, ivl=0 if st == "sync" else 1, course=name)
+                    if platform:
+                        cc["platform"] = platform
+                    else:
+                        cc["drvprompt"] = "c"
+                    out.append(cc)
+    return out
+
+
 def driver_cases():
     out = []
     for stack in ("sync", "async"):
@@ -1191,6 +1298,8 @@ def run(tier, seed):
         cases.append(c); streams.append("lockhist")
     for c in decor_cases(tier, ck.rng):
         cases.append(c); streams.append("decor")
+    for c in drvhook_cases(tier, ck.rng):
+        cases.append(c); streams.append("drvhooks")
     nrand = 1500 if tier == "quick" else 30000
     for i in range(nrand):
         st = "clean" if i % 10 < 5 else ("prefixy" if i % 10 < 8 else "outdomain")
@@ -1240,7 +1349,7 @@ def run(tier, seed):
                           "empty-reads" if any(e[0] == "c" and not e[1] for e in res["tape"]) else "no-empty-reads",
                           f"conn-errors={min(sum(1 for e in res['tape'] if e[0] == 'E'), 3)}",
                           f"via={case.get('via')}", f"build={case.get('build')}", f"logins-on-object={len(case.get('prev', [])) + 1}",
-                          f"channel_lock={bool(case.get('channel_lock'))}"))
+                          f"channel_lock={bool(case.get('channel_lock'))}", f"platform={case.get('platform') or '-'}"))
             viol = oracle(case, res)
             if viol:
                 rec = {"case": case, "stream": stream, "what": viol, "outcome": res["outcome"],
@@ -1253,7 +1362,7 @@ def run(tier, seed):
             outcomes[res["outcome"].split(":")[0]] = outcomes.get(res["outcome"].split(":")[0], 0) + 1
             if res["outcome"].startswith("other:"):
                 ck.violation({"case": case, "outcome": res["outcome"]}, "login raised a non-scrapli exception: " + res["outcome"])
-        if mout is not None and not case.get("auth_bypass"):
+        if mout is not None and not case.get("auth_bypass") and not case.get("platform"):
             status, nread, mw = model_view(mout[idx], case)
             got = (res["outcome"], len(res["tape"]), res["writes"])
             if res["outcome"].startswith("other:") or (status, nread, mw) != got:
